@@ -18,7 +18,8 @@ RULE = ("the full product: status in {None,200,201,202,204,301,400,401,403,404,5
         ' ; an injection dict used for two calls'
         ' ; white space before / around a document; classification under debug logging'
         ' ; reply histories over one client'
-        ' ; a Fault after other Body content')
+        ' ; a Fault after other Body content'
+        ' ; error pages are not the description')
 ASSUMPTIONS = ["a reply returned by the transport carries no status for suds (counts as 200), as the property states"]
 PARTIAL = []
 TRUSTED = []
